@@ -120,3 +120,14 @@ chk("C10", "exploration", "property-based testing (Hypothesis): generated enable
     "ball ended, tilt, service) no flipper/autofire rule is installed and no flipper coil is energised. Search, not proof.",
     "Rule table of the virtual platform; delayed-pulse autofire rules are not available on it.",
     "DESIGN.md §4 C10")
+chk("C09", "exploration", "property-based testing (Hypothesis): generated colour/fade/removal histories vs. a priority-stack model, on four light backends",
+    "Generated histories of color/on/off with fades, priorities and keys, key removals with and without fade-out, "
+    "clear_stack and gaps landing inside and after fades run on a single-channel, an RGB and an RGBW light whose hardware "
+    "channels are the stock virtual light or recording subclasses of the real LightPlatformDirectFade, "
+    "LightPlatformSoftwareFade and PlatformBatchLight (+ real PlatformBatchLightSystem), with a generated brightness "
+    "setting and colour-correction profile. Checked: get_color() never leaves the hull of the colours involved; 3 s "
+    "after the last operation get_color() equals the stack model's top colour and every hardware channel's last command "
+    "equals that colour after brightness/colour correction; on virtual/direct backends hardware tracks running fades. "
+    "Search, not proof.",
+    "Correction maths trusted from the light's own gamma_correct/color_correct; ties of priority accept either entry; tracking not asserted under gamma profiles or within 2 s of a removal.",
+    "DESIGN.md §4 C09")
